@@ -6,7 +6,7 @@ PROP = {
     # in-regime premature stops carry the signature of finding D15; measured rate on the pinned tree ~1e-5 (3 in 16 seeds x 16500 cases; expected 0.25 per quick run, P(more than 5) = 3e-7)
     "rate_limits": {"nd-in-regime-premature-stop(rate-limited)": {"abs": 5, "frac": 1e-4}},
     "shards": {"quick": 8, "thorough": 16},
-    "rule": "1D: 7 objective families (quadratic, quartic-flat, cosh, Morse well, multimodal parabola+oscillation, plateau with dip, |t|^p) x starts up to 20 length scales "
+    "rule": "1D: 8 objective families (quadratic, quartic-flat, cosh, Morse well, multimodal parabola+oscillation, plateau with dip, |t|^p, even multimodal with exactly tied starts) x starts up to 20 length scales (cosh: 709) "
             "off-centre x steps 1e-3..1e3 of either sign x tol 1e-12..1e-3; ND (n=1..6): random SPD quadratics (condition <= 1e4, random rotation, f0 = 0 or not) and "
             "multimodal variants, all three minimize overloads, deltas 1e-3..1e3 of either sign, ftol 1e-12..1e-3; convergence judged where the initial simplex edge is >= 1/3 of "
             "the distance to the minimiser; the small-simplex regime is explored against the recorded finding. Non-trivial = >= 10 iterations (tick hook) and, for n >= 2... "
@@ -20,5 +20,6 @@ PROP = {
                   "distance of the known minimiser on unimodal 1D families and on strictly convex quadratics. Exploration of sampled objectives and starts.",
     "level_note": "Trusted: closed-form minimisers of the driver's objective families; deterministic objectives. The Nelder-Mead convergence clause is enforced where the textbook method is "
                   "reliable (initial edge >= distance/3); outside it the recorded known finding applies and only observations matching its full signature are suppressed.",
-    "assumptions": STD_ASSUME + ["objectives are deterministic and finite on the explored region"],
+    "assumptions": STD_ASSUME + ["objectives are deterministic, never NaN, and finite at one or both starting abscissae; +inf from overflowing exp/cosh is a legitimate value elsewhere "
+                                 "(cosh bowls are started up to 709 widths from the minimum with steps up to 1e3 widths; the Morse well, flat to rounding beyond 37 widths, keeps steps <= 20 widths)"],
 }
